@@ -1410,6 +1410,40 @@ func ruleC02Cache(rule string) func(r *Run) {
 					}
 				}
 			}
+			if !ok && v != nil && okFlag != nil {
+				// the lookup may sit in a helper whose results travel through merged locals: decide on paths — every
+				// path from the Get on which its ok flag was taken as true returns (v, v.params)
+				fps, complete := exploreFrom(c.(ssa.Instruction), nil, 3000)
+				hits, good := 0, complete
+				for _, fp := range fps {
+					hit := false
+					for _, d := range fp.pc.decs {
+						if d.Cond == okFlag && d.Truth {
+							hit = true
+						}
+					}
+					if !hit {
+						continue
+					}
+					hits++
+					if fp.ret == nil || len(fp.ret.Results) != 2 {
+						good = false
+						continue
+					}
+					r0 := resolvePhi(fp.ret.Results[0], fp.pc)
+					r1 := resolvePhi(fp.ret.Results[1], fp.pc)
+					baseOK := false
+					if ld, isLd := r1.(*ssa.UnOp); isLd && isLoadOfField(r1, m.params) {
+						if fa, isFA := ld.X.(*ssa.FieldAddr); isFA && resolvePhi(fa.X, fp.pc) == v {
+							baseOK = true
+						}
+					}
+					if r0 != v || !baseOK {
+						good = false
+					}
+				}
+				ok = good && hits > 0
+			}
 			r.Check(rule, fmt.Sprintf("(*Router).match:cache hit#%d", i+1), w.InstrPos(c), ok, map[bool]string{true: "a hit returns the cached route and that route's own stored parameters", false: "a cache hit does not return (v, v.params) for the v it found"}[ok])
 		}
 		// static path: nil params
